@@ -30,7 +30,7 @@ func (p *AP) forced(n string, a Attr) bool {
 	case "target":
 		return p.TargetBlank && n == "a" && a.V == "_blank"
 	case "crossorigin":
-		return p.CrossOrigin && crossEls[n] && a.V == "anonymous"
+		return p.CrossOrigin && crossEls[n]
 	case "sandbox":
 		return p.SandboxOn && n == "iframe"
 	}
